@@ -712,6 +712,10 @@ pub enum Call {
     /// evaluated before either value is rendered), and what a caller does who keeps the
     /// value around.
     Held { ty: Ty, raw: i64, pic: String, fty: Ty, fillers: Vec<(i64, String)>, at_once: bool },
+    /// the serde impls as public functions: the value with raw count `raw` is serialized by a
+    /// human-readable or compact serializer, and one primitive of kind `kind` is handed to the
+    /// type's `Deserialize` by a deserializer that never allocates
+    Serde { ty: Ty, raw: i64, kind: String, f_bits: u64, text: String, human: bool },
 }
 
 pub const HELD_MAX: usize = 40;
@@ -778,6 +782,7 @@ impl Call {
             Call::FromTime { ty, .. } => format!("{}::try_from(Time)", ty.name()),
             Call::Func { name, .. } => name.clone(),
             Call::Held { ty, .. } => format!("held({}::format)", ty.name()),
+            Call::Serde { ty, human, .. } => format!("serde<{}>({})", ty.name(), if *human { "human-readable" } else { "compact" }),
         }
     }
 
@@ -826,6 +831,18 @@ impl Call {
                 fty.name(),
                 if *at_once { "each rendered at once" } else { "all held too, rendered after it" }
             ),
+            Call::Serde { ty, raw, kind, f_bits, text, human } => format!(
+                "{}[raw {}] serialized by a {} serializer, then {}::deserialize given a {} (integer {}, float bits {:016x}, text {}) by a {} format",
+                ty.name(),
+                raw,
+                if *human { "human-readable" } else { "compact" },
+                ty.name(),
+                kind,
+                raw,
+                f_bits,
+                clip(text),
+                if *human { "human-readable" } else { "binary" }
+            ),
         }
     }
 
@@ -848,6 +865,9 @@ impl Call {
             Call::Held { ty, raw, pic, fty, fillers, at_once } => json!({
                 "call": "held", "type": ty.name(), "raw": raw, "picture": pic, "filler_type": fty.name(),
                 "fillers": fillers.iter().map(|(r, p)| json!([r, p])).collect::<Vec<_>>(), "fillers_rendered_at_once": at_once,
+            }),
+            Call::Serde { ty, raw, kind, f_bits, text, human } => json!({
+                "call": "serde", "type": ty.name(), "raw": raw, "kind": kind, "f_bits": format!("{:016x}", f_bits), "text": text, "human_readable": human,
             }),
         }
     }
@@ -880,6 +900,14 @@ impl Call {
             "now" => Call::Now { ty: ty()? },
             "from_time" => Call::FromTime { ty: ty()?, raw: v["raw"].as_i64().ok_or("raw")? },
             "func" => Call::Func { name: s("name")?, args: Args::from_json(&v["args"])? },
+            "serde" => Call::Serde {
+                ty: ty()?,
+                raw: v["raw"].as_i64().ok_or("raw")?,
+                kind: s("kind")?,
+                f_bits: u64::from_str_radix(v["f_bits"].as_str().unwrap_or("0"), 16).unwrap_or(0),
+                text: s("text")?,
+                human: v["human_readable"].as_bool().unwrap_or(true),
+            },
             "held" => Call::Held {
                 ty: ty()?,
                 raw: v["raw"].as_i64().ok_or("raw")?,
@@ -1118,6 +1146,10 @@ pub fn execute(call: &Call, tables: &Tables, vals: Option<&Vals>, sink: &mut Fau
                 Ty::Oracle => h!(OracleDate::try_from_usecs(*raw)),
             }
         }
+        Call::Serde { ty, raw, kind, f_bits, text, human } => {
+            let idx = ALL_TYPES.iter().position(|t| t == ty).unwrap_or(0) as u64;
+            crate::firstuse::serde_call(idx, *raw, crate::firstuse::make_prim(kind, *raw, *f_bits, text), *human, sink)
+        }
         Call::Func { name, .. } => match (funcs.iter().find(|(n, _)| n == name), vals) {
             (Some((_, f)), Some(v)) => {
                 f(v);
@@ -1162,8 +1194,8 @@ const COMMON_PICTURES: [&str; 22] = [
     "YYYY-MM-DD\"T\"HH24:MI:SS",
     "yyyy-mm-ddThh24:mi:ss.ff9",
 ];
-const JUNK: [&str; 26] = [
-    "\0", "é", "日", "😀", "0", "9", "1", "+", "-", "!", "\"", "#", "'", "(", "*", "[", "_", "~", "\t", "\n", "x", "Z", "\u{7f}",
+const JUNK: [&str; 32] = [
+    "ı", "İ", "ſ", "ﬆ", "\u{212a}", "ǰ", "\0", "é", "日", "😀", "0", "9", "1", "+", "-", "!", "\"", "#", "'", "(", "*", "[", "_", "~", "\t", "\n", "x", "Z", "\u{7f}",
     "\u{80}", "ß", "\u{feff}",
 ];
 
@@ -1385,7 +1417,47 @@ pub fn structured_text(rng: &mut Rng, pic: &str) -> String {
     out
 }
 
+/// Characters whose upper- or lower-case mapping is an ASCII letter or letter pair
+/// (dotless and dotted i of Turkish text, long s, the st / ff / fi ligatures of text copied
+/// from a PDF, the Kelvin sign, sharp s): a name written with one of them compares equal to
+/// the plain name after a Unicode case conversion, but has another byte length.
+const CONFUSABLES: [(&str, &str); 14] = [
+    ("i", "ı"), ("I", "İ"), ("i", "İ"), ("s", "ſ"), ("S", "ſ"), ("st", "ﬆ"), ("ST", "ﬆ"), ("st", "ﬅ"), ("k", "\u{212a}"), ("K", "\u{212a}"),
+    ("ff", "ﬀ"), ("fi", "ﬁ"), ("ss", "ß"), ("a", "ª"),
+];
+
+/// Replaces one or two letter groups of `s` by such a character.
+fn confuse(rng: &mut Rng, s: &str) -> String {
+    let mut out = s.to_string();
+    for _ in 0..1 + rng.usize_below(2) {
+        let (plain, odd) = *rng.pick(&CONFUSABLES);
+        let hits: Vec<usize> = out.match_indices(plain).map(|(i, _)| i).collect();
+        if hits.is_empty() {
+            // case-insensitive second try
+            let lower = out.to_ascii_lowercase();
+            let hits: Vec<usize> = lower.match_indices(&plain.to_ascii_lowercase()).map(|(i, _)| i).collect();
+            if let Some(&i) = hits.get(rng.usize_below(hits.len().max(1))) {
+                if out.is_char_boundary(i) && out.is_char_boundary(i + plain.len()) {
+                    out.replace_range(i..i + plain.len(), odd);
+                }
+            }
+            continue;
+        }
+        let i = hits[rng.usize_below(hits.len())];
+        out.replace_range(i..i + plain.len(), odd);
+    }
+    out
+}
+
 pub fn gen_text(rng: &mut Rng, ty: Ty, pic: &str) -> String {
+    let t = gen_text_plain(rng, ty, pic);
+    if rng.chance(1, 12) && t.len() < 300 && t.bytes().any(|b| b.is_ascii_alphabetic()) {
+        return confuse(rng, &t);
+    }
+    t
+}
+
+fn gen_text_plain(rng: &mut Rng, ty: Ty, pic: &str) -> String {
     if rng.chance(1, 4) && pic.len() < 300 && pic.is_ascii() {
         return structured_text(rng, pic);
     }
@@ -1479,7 +1551,33 @@ pub fn gen_call(rng: &mut Rng, tables: &Tables) -> Call {
             let (name, _) = rng.pick(&tables.prods);
             Call::Chain { producer: name.to_string(), args: Args::draw(rng), pic: gen_picture(rng), display: rng.chance(1, 3) }
         }
-        78..=80 => Call::FromTime { ty: *rng.pick(&[Ty::Timestamp, Ty::Oracle]), raw: draw_value(rng, Ty::Time) },
+        78 => {
+            // the serde impls: any primitive a data format may hand over
+            let ty = *rng.pick(&ALL_TYPES);
+            let kind = if rng.chance(1, 2) { "str" } else { *rng.pick(&crate::firstuse::PRIM_KINDS) }.to_string();
+            let raw = match rng.below(4) {
+                0 => draw_value(rng, ty),
+                1 => *rng.pick(&[i64::MAX, i64::MIN, i64::MAX / 2, i64::MAX / 1000, i64::MIN / 1000, 1_700_000_000_000_000_000, u32::MAX as i64, i32::MIN as i64, -1, 0, 1]),
+                2 => (ty.hi() as i128 + *rng.pick(&[-1i128, 0, 1, 1000, 1_000_000])).clamp(i64::MIN as i128, i64::MAX as i128) as i64,
+                _ => rng.next_u64() as i64,
+            };
+            let text = match rng.below(3) {
+                0 => {
+                    let idx = ALL_TYPES.iter().position(|t| *t == ty).unwrap_or(0);
+                    let t = crate::firstuse::TEXTS[idx];
+                    if rng.bool() {
+                        t.to_string()
+                    } else {
+                        let n = 1 + rng.usize_below(2);
+                        mutate(rng, t, n)
+                    }
+                }
+                1 => gen_text(rng, ty, "YYYY-MM-DD HH24:MI:SS.FF6"),
+                _ => small_text(rng),
+            };
+            Call::Serde { ty, raw, kind, f_bits: draw_f64(rng).to_bits(), text, human: rng.chance(2, 3) }
+        }
+        79..=80 => Call::FromTime { ty: *rng.pick(&[Ty::Timestamp, Ty::Oracle]), raw: draw_value(rng, Ty::Time) },
         _ => {
             let (name, _) = rng.pick(funcs);
             Call::Func { name: name.to_string(), args: Args::draw(rng) }
